@@ -309,6 +309,8 @@ def offsets_and_comments(chk, seed):
         items = []
         for t in OFFSET_INPUTS:
             if c % 2 == 1:
+                # comments inside the parentheses of the attributes themselves (the names in them are names of helpers)
+                t = t.replace("method(m)", "method(m /* Educe__DebugField Educe__RawString H HH */)").replace("Hash(unsafe)", "Hash(unsafe /* H */)")
                 # comments and blank lines between the tokens of the item (never inside a token)
                 lines = t.split("\n")
                 t = "\n".join(l + ("  " + rng.choice(noise) if l.strip() and rng.random() < 0.5 else "") + ("\n" if rng.random() < 0.2 else "")
